@@ -112,6 +112,15 @@ def cases(rng, thorough):
             for xm in (yi, yi.astype("float32")):
                 out.append(("_mann_kendall_trend_gu", "stats", "gu", (xm,), tag + " " + str(xm.dtype), [("float32", (1,)), ("float32", (1,)), ("float32", (1,)), ("int8", (1,))]))
                 out.append(("_mann_kendall_trend_gu_nd", "stats", "gu", (xm, nd), tag + " " + str(xm.dtype), [("float32", (1,)), ("float32", (1,)), ("float32", (1,)), ("int8", (1,))]))
+    # long series near the top of int16: accumulators must not be narrower than the compiled ones (float32 loses bits past 2**24)
+    for n in (2000, 5000):
+        big = rng.integers(30000, 32700, size=n).astype("int16")
+        grp2 = (np.arange(n) % 2).astype("int16")
+        for dt in ("int16", "int32", "float32"):
+            out.append(("mean_grp", "stats", "gu", (big.astype(dt), grp2, 2.0, -3000.0), "n=%d near int16 max %s" % (n, dt), [("float32", (n,))]))
+        out.append(("rolling_sum", "stats", "gu", (big, float(n // 2), -3000.0), "n=%d near int16 max window n/2" % n, [("float32", (n,))]))
+        out.append(("autocorr_1d_int", "autocorr", "njit", (big, -3000), "n=%d near int16 max" % n))
+        out.append(("mk_score", "stats", "njit", (big[:600],), "n=600 near int16 max"))
     # cubes
     for (r, c, t) in [(1, 1, 2), (1, 1, 5), (2, 3, 6), (1, 4, 12)] + ([(3, 2, 30)] if thorough else []):
         cube = np.round(rng.gamma(2.0, 50.0, size=(r, c, t)))
